@@ -59,8 +59,22 @@ def kind(f):
     return ('atom', op)
 
 
+UNIT_NS = {'s': 10**9, 'ms': 10**6, 'us': 10**3, 'ns': 1}
+
+
+def seconds(b, ub, e, ue):
+    """the two bounds of an interval as durations in seconds (a missing unit is inherited from the other end, else the default unit s)"""
+    ub = ub if ub in UNIT_NS else None
+    ue = ue if ue in UNIT_NS else None
+    rb = ub or ue or 's'
+    re_ = ue or ub or 's'
+    conv = lambda v, u: (v * UNIT_NS[u] / Fraction(10**9)) if isinstance(v, Fraction) else v
+    return conv(b, rb), conv(e, re_)
+
+
 class Renderer(object):
-    def __init__(self, rng, style='min', aliases=True, seps=True, spaces=True):
+    def __init__(self, rng, style='min', aliases=True, seps=True, spaces=True, units=False):
+        self.units = units
         self.rng = rng
         self.style = style
         self.aliases = aliases
@@ -74,6 +88,16 @@ class Renderer(object):
 
     def interval(self, b, e):
         sep = self.rng.choice([',', ':']) if self.seps else ','
+        if self.units and self.rng.random() < 0.5:
+            # equivalent spellings with explicit units (default unit s): both ends, only begin (end inherits), only end (begin inherits)
+            k = self.rng.choice(['both', 'both', 'begin', 'end'])
+            sp = lambda v, u: '%d%s%s' % (v * (10**9 // UNIT_NS[u]), self.rng.choice(['', ' ']) if self.spaces else '', u)
+            ub, ue = self.rng.choice(['s', 'ms', 'us']), self.rng.choice(['s', 'ms', 'us', 'ns'])
+            if k == 'both':
+                return ['[', sp(b, ub), sep, sp(e, ue), ']']
+            if k == 'begin':
+                return ['[', sp(b, ub), sep, str(e * (10**9 // UNIT_NS[ub])), ']']
+            return ['[', str(b * (10**9 // UNIT_NS[ue])), sep, sp(e, ue), ']']
         return ['[', str(b), sep, str(e), ']']
 
     def toks(self, f, min_level=0, follow=-1):
@@ -230,7 +254,8 @@ def parse_dump(s):
             v = num(x[1])
             return ['const', Fraction(float(v)) if isinstance(v, Fraction) else v]     # constants are Python floats in rtamt
         if x[0].endswith('_t'):
-            return [x[0], num(x[1]), x[2], num(x[3]), x[4]] + [canon(y) for y in x[5:]]
+            b, e = seconds(num(x[1]), x[2], num(x[3]), x[4])
+            return [x[0], b, '_', e, '_'] + [canon(y) for y in x[5:]]
         return [x[0]] + [canon(y) for y in x[1:]]
     return canon(tree)
 
